@@ -301,6 +301,28 @@ theorem rhsOk_of_vals_length (us : List Nat) (rhs : Rhs) (h : (rhsVals us.length
         | [v], _ => rfl
         | _ :: _ :: _, h => simp at h; exact absurd (by simpa using h) h1
 
+/-- `grow` with explicit or default values, for the fresh identifiers `n … n+k-1` of a well-formed array -/
+theorem grow_spec' (a : Arr) (n k : Nat) (h : WF n a) (nv : Option Rhs) (rhs : Rhs)
+    (hrhs : rhs = (match nv with | some r => r | none => defaultRhs a (newIds n k)))
+    (hok : rhsOk (newIds n k) rhs = true) :
+    ∃ a', grow a (newIds n k) nv = .ok a' ∧ WF (n + k) a' ∧ a'.nan = a.nan ∧ a'.default = a.default ∧ a'.kind = a.kind ∧
+      ∀ x, x < n + k → a'.cell x = updMany a.cell (newIds n k) (rhsVals k rhs) x := by
+  obtain ⟨hwf, hnan, hdef, hkind, hcell⟩ := growStore_spec a n k h
+  have hin : ∀ u ∈ newIds n k, u < (growStore a k).raw.length := by
+    intro u hu; have := (mem_newIds n k u).mp hu; have := hwf.le; omega
+  have hin' : inRange (growStore a k) (newIds n k) = true := by
+    simp only [inRange, List.all_eq_true, decide_eq_true_eq]; exact hin
+  refine ⟨{ growStore a k with raw := assignRaw (growStore a k).raw (newIds n k) rhs }, ?_, ?_, hnan, hdef, hkind, ?_⟩
+  · rw [grow_eq]; simp only [newIds_length, ← hrhs]; simp [hok, hin']
+  · exact ⟨hwf.used, by simpa using hwf.tot, by simpa using hwf.le⟩
+  · intro x hx
+    simp only [Arr.cell]
+    rw [assignRaw_eq_updMany _ _ _ hok hin]
+    simp only [newIds_length]
+    apply updMany_congr
+    left
+    exact hcell x hx
+
 theorem grow_spec (a : Arr) (n k : Nat) (h : WF n a) (hd : (defaultVals a (newIds n k)).length = k) :
     ∃ a', grow a (newIds n k) none = .ok a' ∧ WF (n + k) a' ∧ a'.nan = a.nan ∧ a'.default = a.default ∧ a'.kind = a.kind ∧
       ∀ x, x < n + k → a'.cell x = updMany a.cell (newIds n k) (defaultVals a (newIds n k)) x := by
